@@ -341,5 +341,41 @@ pub fn run(ctx: &Ctx, st: &mut Stats) {
             st.sample(|| json!(c));
         }
     }
+    // clock-boundary seeking: the same pairs at longitudes (adjacent f64 values and a few floats around them) where one
+    // of the base run's times sits within an ulp of a displayed-second / rounding boundary: "equal" and "exactly that
+    // many minutes" must hold there too (a difference of 1e-9 s between two routes only shows at such a point)
+    let nb = ctx.quota(3_000, 150_000);
+    let mut rb = Rng::new(ctx.seed, 1202, ctx.shard);
+    for i in 0..nb {
+        let mut c = gen_case(&mut rb);
+        if i % 3 == 0 {
+            c.kind = "weather_default".into();
+            c.base_weather = None;
+            c.key = None;
+            c.value = None;
+            c.value2 = None;
+        }
+        c.site.lon = X(c.site.lon.0.clamp(-179.0, 179.0));
+        let p = c.p.build();
+        let date = s2d(&c.date);
+        let w = c.base_weather.map(|(a, b)| weather(a.0, b.0));
+        let pr = if c.kind.starts_with("weather") { *rb.pick(&[Prayer::Shurooq, Prayer::Maghrib]) } else { *rb.pick(&SIX) };
+        let unit = if c.p.mode == 0 { 1.0 } else { 60.0 };
+        let Some((a, b)) = super::seek_clock_boundary(st, &p, c.site, date, w, pr, unit) else {
+            st.count("clock_boundary_seeks.none_found");
+            continue;
+        };
+        st.count(&format!("clock_boundary_seeks.{}", c.kind));
+        for k in [0i64, -1, -2, -4, -9, 1, 2, 3, 5, 10] {
+            let lon = if k <= 0 { super::nudge_ulps(a, k) } else { super::nudge_ulps(b, k - 1) };
+            if !(-180.0..=180.0).contains(&lon) {
+                continue;
+            }
+            let mut c2 = c.clone();
+            c2.site.lon = X(lon);
+            check(ctx, st, &c2);
+            st.nontrivial_key(hash64(&format!("b{:?}", c2)));
+        }
+    }
     st.extra.insert("rule".into(), json!("seeded random pairs of executions differing in exactly one parameter (minute offset on one of the 7 keys, Isha/Fajr/Imsaak interval, Asr school, +-1 deg Fajr/Isha angle, weather, explicit default weather), half under policy None and half under other policies, |lat|<=62; every pair is judged; distinct by input hash"));
 }
